@@ -70,7 +70,7 @@ struct O1 { x: u32, inner: I1, y: u32 }
   out.y = inp.inner.b; out.inner.b = inp.y; out.x = inp.x;
 }`,
 		// I1: size 16 align 16. O1: x@0 inner@16 y@32 size 48
-		in: map[B][]byte{b0(0): seqWords(12, 100), b0(1): zeros(48)},
+		in:   map[B][]byte{b0(0): seqWords(12, 100), b0(1): zeros(48)},
 		want: map[B][]any{b0(1): sparse(48, [][2]int{{4, 16}, {20, 32}, {36, 48}}, map[int]any{0: 100, 16: 108, 32: 104})}},
 
 	{name: "mat3x3_mat2x2_members", wgsl: `
@@ -94,7 +94,7 @@ struct M { a: f32, m3: mat3x3<f32>, m2: mat2x2<f32>, b: f32 }
   for (var i = 0u; i < 3u; i++) { o[2u - i] = a[i] + vec3<u32>(i); }
   o[1].y = 77u;
 }`,
-		in: map[B][]byte{b0(0): bs(uint32(1), uint32(2), uint32(3), anyPad(4), uint32(4), uint32(5), uint32(6), anyPad(4), uint32(7), uint32(8), uint32(9), anyPad(4)), b0(1): zeros(48)},
+		in:   map[B][]byte{b0(0): bs(uint32(1), uint32(2), uint32(3), anyPad(4), uint32(4), uint32(5), uint32(6), anyPad(4), uint32(7), uint32(8), uint32(9), anyPad(4)), b0(1): zeros(48)},
 		want: map[B][]any{b0(1): {uint32(9), uint32(10), uint32(11), anyPad(4), uint32(5), uint32(77), uint32(7), anyPad(4), uint32(1), uint32(2), uint32(3), anyPad(4)}}},
 
 	{name: "runtime_array_whole_buffer", wgsl: `
@@ -178,7 +178,7 @@ struct U { scale: vec4<f32>, offs: vec2<i32>, n: u32, arr: array<vec4<u32>, 2> }
   o[3] = f32(u.arr[1].z + u.arr[0].x);
   let i = u.n; o[4] = f32(u.arr[i % 2u][i]); o[5] = u.scale[i];
 }`,
-		in: map[B][]byte{b0(0): bs(1.5, 2.0, 3.0, 4.0, -2, 7, uint32(3), anyPad(4), uint32(10), uint32(11), uint32(12), uint32(13), uint32(20), uint32(21), uint32(22), uint32(23)), b0(1): zeros(24)},
+		in:   map[B][]byte{b0(0): bs(1.5, 2.0, 3.0, 4.0, -2, 7, uint32(3), anyPad(4), uint32(10), uint32(11), uint32(12), uint32(13), uint32(20), uint32(21), uint32(22), uint32(23)), b0(1): zeros(24)},
 		want: map[B][]any{b0(1): {-3.0, 11.0, 3.0, 32.0, 23.0, 4.0}}},
 
 	{name: "workgroup_array_barrier", wg: [3]uint32{4, 1, 1}, wgsl: `
@@ -301,7 +301,7 @@ var<private> pa: array<vec2<i32>, 2> = array<vec2<i32>, 2>(vec2<i32>(1, 2), vec2
   var lm = m; lm[c][r] = lm[c][r] * 10.0;
   o[0] = lm[c][r]; o[1] = lm[0][0]; o[2] = m[c].z;
 }`,
-		in: map[B][]byte{b0(0): bs(uint32(1), uint32(2)), b0(1): bs(10.0, 11.0, 12.0, anyPad(4), 13.0, 14.0, 15.0, anyPad(4), 16.0, 17.0, 18.0, anyPad(4)), b0(2): zeros(12)},
+		in:   map[B][]byte{b0(0): bs(uint32(1), uint32(2)), b0(1): bs(10.0, 11.0, 12.0, anyPad(4), 13.0, 14.0, 15.0, anyPad(4), 16.0, 17.0, 18.0, anyPad(4)), b0(2): zeros(12)},
 		want: map[B][]any{b0(1): {10.0, 11.0, 12.0, anyPad(4), 1.0, 2.0, 9.0, anyPad(4), 16.0, 17.0, 18.0, anyPad(4)}, b0(2): {90.0, 10.0, 9.0}}},
 
 	{name: "uniform_mat2x2_and_vec4_array", wgsl: `
@@ -325,7 +325,7 @@ struct Top { pre: f32, mid: Mid, post: vec3<i32> }
   t.mid.items[0].p.x = t.mid.n;
 }`,
 		// In: 16 bytes. Mid: items@0 n@32 size 48. Top: pre@0 mid@16 post@64 size 80
-		in: map[B][]byte{b0(0): bs(7.0, anyPad(12), 1.0, 2.0, 3.0, uint32(11), 4.0, 5.0, 6.0, uint32(12), 2.0, anyPad(12), 0, 0, 0, anyPad(4))},
+		in:   map[B][]byte{b0(0): bs(7.0, anyPad(12), 1.0, 2.0, 3.0, uint32(11), 4.0, 5.0, 6.0, uint32(12), 2.0, anyPad(12), 0, 0, 0, anyPad(4))},
 		want: map[B][]any{b0(0): {7.0, anyPad(12), 2.0, 2.0, 3.0, uint32(11), 3.0, 2.0, 1.0, uint32(7), 2.0, anyPad(12), 3, 4, 5, anyPad(4)}}},
 
 	{name: "storage_and_workgroup_barriers", wg: [3]uint32{4, 1, 1}, wgsl: `
@@ -352,6 +352,16 @@ struct Top { pre: f32, mid: Mid, post: vec3<i32> }
 }`,
 		in:   map[B][]byte{b0(0): bs(uint32(2), uint32(1)), b0(1): zeros(24)},
 		want: map[B][]any{b0(1): {0, 1, 15, 11, 20, -1}}},
+	{name: "workgroup_4x2_barrier", wg: [3]uint32{4, 2, 1}, wgsl: `
+var<workgroup> t: array<u32, 8>;
+@group(0) @binding(0) var<storage, read_write> o: array<u32, 8>;
+@compute @workgroup_size(4, 2, 1) fn main(@builtin(local_invocation_id) lid: vec3<u32>, @builtin(local_invocation_index) li: u32) {
+  t[li] = lid.x + 10u * lid.y;
+  workgroupBarrier();
+  o[li] = t[7u - li];
+}`,
+		in:   map[B][]byte{b0(0): zeros(32)},
+		want: map[B][]any{b0(0): {uint32(13), uint32(12), uint32(11), uint32(10), uint32(3), uint32(2), uint32(1), uint32(0)}}},
 }
 
 func TestConformanceGroup3(t *testing.T) {
